@@ -856,6 +856,24 @@ func runC14(c *h.Ctx) {
 			cs.Viol("tdesc:parse-error-on-valid-idl", "err", err)
 			return
 		}
+		if byName {
+			// a service name that is not declared (here: another spelling of a declared one) selects nothing
+			for _, cand := range []string{strings.ToUpper(o.ServiceName), strings.ToLower(o.ServiceName), o.ServiceName + "x", o.ServiceName[:len(o.ServiceName)-1]} {
+				declared := false
+				for _, s := range main.Services {
+					declared = declared || s.Name == cand
+				}
+				if declared || cand == "" {
+					continue
+				}
+				o2 := o
+				o2.ServiceName = cand
+				if x, err := o2.NewDescritorFromContent(context.Background(), main.Path, includes[main.Path], includes, false); err == nil {
+					cs.Viol("tdesc:undeclared-service-name-accepted", "asked", cand, "got", x.Name())
+				}
+				cs.Cover("undeclared_service_names_probed")
+			}
+		}
 		if svc.Name() != wantName {
 			cs.Viol("tdesc:service-name", "got", svc.Name(), "want", wantName)
 		}
